@@ -4,11 +4,11 @@ if [ "$1" = "re" ]; then
   for d in /verif/benign/${2:-}*/; do n=$(basename $d); python3 /verif/tools/benigncheck.py $n $d/patch.diff $d/notes.txt --keep 2>&1 | grep -v conda.cli | cut -c1-300; done
   exit 0
 fi
-for d in /tmp/benign/*/out; do
+for d in ${BENIGN_SRC:-/tmp/benign}/*/out; do
   g=$(basename $(dirname $d))
   for k in 1 2 3 4; do
     [ -f $d/refactor$k.diff ] || continue
-    [ -d /verif/benign/$g-$k ] && continue
-    python3 /verif/tools/benigncheck.py $g-$k $d/refactor$k.diff $d/notes$k.txt --keep 2>&1 | grep -v conda.cli | cut -c1-300
+    [ -d /verif/benign/${BENIGN_PREFIX:-}$g-$k ] && continue
+    python3 /verif/tools/benigncheck.py ${BENIGN_PREFIX:-}$g-$k $d/refactor$k.diff $d/notes$k.txt --keep 2>&1 | grep -v conda.cli | cut -c1-300
   done
 done
